@@ -435,7 +435,14 @@ pub fn case_strategy() -> BoxedStrategy<Case> {
         3 => canon_start().prop_map(Start::SemverTag),
         1 => (gens::pep::pepv(3), gens::pep::spelling()).prop_map(|(mut p, s)| { p.local = None; Start::PepTag(p, s) }),
         3 => zg::mzerv(true).prop_map(|mut z| { z.vars.epoch = z.vars.epoch.filter(|e| *e > 0); Start::Stdin(z) }),
-        1 => (zg::mzerv(true), canon_start()).prop_map(|(z, k)| Start::StdinTag(z, k)),
+        1 => (zg::mzerv(true), canon_start(), prop::bool::weighted(0.4)).prop_map(|(mut z, k, same)| {
+            // the object may already carry this very tag as last_tag_version (an earlier stage
+            // bumped the version away from it): the override still sets every version field
+            if same {
+                z.vars.last_tag_version = Some(k.semver());
+            }
+            Start::StdinTag(z, k)
+        }),
     ];
     (start, prop_oneof![3 => (0usize..16).prop_map(Sel::Fixed), 3 => zg::valid_schema().prop_map(Sel::Ron), 2 => Just(Sel::FromStdin)], ctx_strategy(), ops_strategy(), raw_idx(), any::<u64>())
         .prop_map(|(start, sel, ctx, ops, raw_idx, perm)| Case { start, sel, ctx, ops, raw_idx, perm })
